@@ -263,6 +263,14 @@ func runWin(sc WinScenario) (evs []Ev, inconclusive string) {
 			if st.Gap > 0 {
 				time.Sleep(time.Duration(st.Gap) * time.Millisecond)
 			}
+			// key tokens: \N = the grouping column is NULL, \M = the row has no grouping column (the NULL key too), \E = the empty text (a key of its own)
+			gtok := g
+			switch gtok {
+			case "\\N", "\\M":
+				g = "?<nil>"
+			case "\\E":
+				g = ""
+			}
 			in.Log(Ev{"tr": sc.Tr, "e": "add", "id": st.ID, "ts": st.Ts, "g": g, "v": v, "fut": st.Fut, "t": us()})
 			tsms := (st.Ts + sc.Cfg.Base) * sc.Cfg.Unit
 			if st.Fut == 1 {
@@ -271,6 +279,12 @@ func runWin(sc WinScenario) (evs []Ev, inconclusive string) {
 			row := map[string]any{"id": st.ID, "ts": tsms, "g": g, "v": v}
 			if sc.Cfg.FloatTs {
 				row["ts"] = float64(tsms)
+			}
+			switch gtok {
+			case "\\N":
+				row["g"] = nil
+			case "\\M":
+				delete(row, "g")
 			}
 			if sc.Cfg.TwoCol {
 				if k := strings.Index(g, "/"); k >= 0 {
